@@ -28,7 +28,7 @@ ASSUMPTIONS = ['numerically solved dispersion/trace orders are compared to 1e-6 
 PLAN = {'quick': {'gen': 8}, 'thorough': {'gen': 16, 'tests': 1}}
 REQUIRED_BUCKETS = ['tilt:subpixel', 'tilt:pixels', 'tilt:beyond-output', 'du:aniso', 'du:iso', 'os>1', 'segmented',
                     'rep:ramp', 'rep:plane', 'rep:wavefront', 'rep:fit', 'multi-tilt', 'scan', 'disp:propagated', 'disp:order1', 'disp:order>1',
-                    'refit-after-update']
+                    'refit-after-update', 'refit-segmented']
 REQUIRED_ANCHORS = ['anchor:Tilt.shift', 'anchor:Field.shift', 'anchor:fit_tilt', 'anchor:ptt_vector',
                     'anchor:DispersiveTilt.shift', 'probe:propagate_dft']
 REQUIRED_ORACLES = ['rep=model', 'fit=lstsq', 'fit:opd+tilt', 'shift:additive', 'shift:order', 'shift:signs',
@@ -240,6 +240,14 @@ def workload(ctx, lentil):
             w1 = lentil.Wavefront(wl) * lentil.Pupil(amplitude=amp, opd=ramp(shape, dxs, *t0) * A, pixelscale=dx,
                                                      focal_length=z).fit_tilt()
         base = [[(amp + 0j, (0, 0))]]
+        # the same tilt element applied twice in one chain (double pass on a steering mirror): displacements add
+        (td, sd2) = pts[0]
+        tobj = lentil.Tilt(x=td[0], y=td[1])
+        try:
+            outd = lentil.propagate_dft((w1 * tobj) * tobj, du, shape=oshape, oversample=os_)
+            compare_rep(ctx, 'same-element-twice', outd, base, [(s0[0] + 2 * sd2[0], s0[1] + 2 * sd2[1])], ar, ac, S, desc)
+        except Exception as e:
+            ctx.check(False, 'rep=model', f'rep|same-element-twice|raises={type(e).__name__}', str(e), desc)
         for (t, sft) in pts:
             try:
                 out = lentil.propagate_dft(w1 * lentil.Tilt(x=t[0], y=t[1]), du, shape=oshape, oversample=os_)
@@ -425,9 +433,15 @@ def workload(ctx, lentil):
         desc = {'refit': list(shape), 'out': list(oshape), 'os': os_, 'wl': wl, 'z': z, 'dx': dx, 'du': du,
                 't1': [float(x) for x in t1], 't2': [float(x) for x in t2]}
         ctx.case(desc, ['refit-after-update'])
-        pl = lentil.Pupil(amplitude=amp, opd=ramp(shape, dxs, *t1), mask=A.astype(float), pixelscale=dx, focal_length=z)
+        segm = A.astype(float)
+        if i % 2 == 1:
+            sg_, _ = gen.partition(rng, A, int(rng.integers(2, 4)))
+            if all(np.linalg.matrix_rank(np.c_[np.ones(int(q.sum())), np.argwhere(q)]) == 3 for q in sg_):
+                segm = sg_.astype(float)       # the same history on a segmented plane (one tilt per segment per fit)
+                ctx.bucket('refit-segmented')
+        pl = lentil.Pupil(amplitude=amp, opd=ramp(shape, dxs, *t1) * A, mask=segm, pixelscale=dx, focal_length=z)
         pl.fit_tilt(inplace=True)
-        pl.opd = pl.opd + ramp(shape, dxs, *t2)
+        pl.opd = pl.opd + ramp(shape, dxs, *t2) * A
         pl.fit_tilt(inplace=True)
         ar = dxs[0] * dus[0] / (wl * z * os_)
         ac = dxs[1] * dus[1] / (wl * z * os_)
@@ -437,7 +451,9 @@ def workload(ctx, lentil):
         except Exception as e:
             ctx.check(False, 'rep=model', f'rep|refit|raises={type(e).__name__}', str(e), desc)
             continue
-        compare_rep(ctx, 'refit', out, [[(amp * A + 0j, (0, 0))]], [s], ar, ac, S, desc)
+        nseg = 1 if segm.ndim == 2 else segm.shape[0]
+        fields_ = [[(amp * A + 0j, (0, 0))]] if nseg == 1 else [[(amp * q + 0j, (0, 0))] for q in segm]
+        compare_rep(ctx, 'refit', out, fields_, [s] * nseg, ar, ac, S, desc)
 
     # ---- (iii) Field.shift: additive, order independent, signs and axes ------------------------
     Field = lentil.field.Field
